@@ -40,6 +40,22 @@ NEEDS = {
     "seed_C17b": ("C17", "dense layout + a particle leaving through the east/north open boundary by more than half a cell + one more step (inactive mask taken before the kill)", ""),
     "seed_C19b": ("C19", "a second plug-in load in the same process with the same file name in another directory (sys.modules cache keyed on the stem)",
                   "missed by the first run (membership test on sys.modules unmodelled; no such history in the sweep): sys.modules modelled as an object with an arbitrary history (deductive detection), two same-named plug-ins in one process added to protocol_bounded"),
+    "seed_C02c": ("C02", "a subgrid whose x and y offsets differ (i0 != j0) + sloping bottom + depth-dependent velocity (z2s called with Y - i0)", ""),
+    "seed_C03c": ("C03", "time-reversed run + fractional step > 0 (RK2/RK4) + velocity changing between frames (reversal sign applied to u, v but not to the fractional increment)", ""),
+    "seed_C04c": ("C04", "continuous release with a window whose end is not on the release-frequency grid anchored at the first file time (tick count by floor division)", ""),
+    "seed_C05c": ("C05", "item assignment from an existing array of the same dtype (state['X0'] = state['X']) followed by an in-place update of the source (np.asarray does not copy)",
+                  "missed by the first run: np.asarray was modelled without its no-copy behaviour and the contract of __setitem__ did not say that the state keeps its own copy; both added (deductive detection), aliasing probe added to the state history sweep"),
+    "seed_C06c": ("C06", "a record with zero particles (release after the start, or everybody dead): particle_count not written for it", ""),
+    "seed_C07c": ("C07", "time-reversed run whose duration is not a multiple of the output period, or an explicit reference time off the period grid (schedule anchored at the reference time)", ""),
+    "seed_C08c": ("C08", "warm start where the time from the restart to the stop is an exact multiple of the output period (floor instead of ceil - 1 when the initial record is skipped)", ""),
+    "seed_C09c": ("C09", "a subgrid with i0 != j0 (shared helper of atsea/onland offsets the row index by i0)", ""),
+    "seed_C10c": ("C10", "time-reversed run + discrete release file listed in chronological order (groupby(sort=False) without the reverse)",
+                  "missed by the first run: the constructor contract assumed a file sorted in simulation order (C04's quantifier) also where C10/C14 do not, and the mirror sweep listed the rows in simulation order; a contract variant without that assumption and chronological files in the mirror sweep added (deductive + bounded detection)"),
+    "seed_C14c": ("C14", "an inactive or dead particle earlier in the state arrays + a later particle stepping onto land in the same step (subset indices applied to the full arrays)",
+                  "C14's own check missed it at first (deductively UNDECIDED: np.flatnonzero unmodelled; the independence sweep had no land hit behind a dead particle) while C09's tracking sweep caught it; island/outflow scenario in both layouts added to the independence sweep (bounded detection)"),
+    "seed_C16c": ("C16", "a subgrid with i0 != j0 (xy2ll subtracts i0 from Y)", ""),
+    "seed_C17c": ("C17", "a subgrid with i0 != j0 (two cooperating edits: Grid.origin in (row, column) order, unpacked as (i0, j0) in velocity/force_particles)",
+                  "caught deductively for C17; the C02 sampling sweep used only subgrids with equal offsets and missed it: unequal offsets now"),
 }
 
 
